@@ -40,6 +40,19 @@ CLAIMED = {
         "technique": "Lean 4 proof (zipper cursor laws) + differential correspondence against the real cursor API",
         "design_ref": "DESIGN.md §6 C18",
     },
+    "C14": {
+        "text": "Lean theorems over all allocator states satisfying the invariant (page free at one order at most, free buddies merged, "
+                "shape), all orders and indexes, with no bound on sizes: a fresh allocator satisfies it; alloc hands out an in-range block of "
+                "free pages only and removes exactly those (so it is disjoint from every live block); alloc refuses only when no aligned block "
+                "of that order is entirely free; alloc_lowest additionally returns the least such index; free gives back exactly the block, "
+                "merges (invariant) and returns the merged order; record_alloc succeeds iff order admissible, block in range and entirely free; "
+                "resize grow/shrink preserve the invariant; serialize/deserialize round trip. The model equals the real BuddyAllocator op by op "
+                "(answers, free/len/trailing/highest counters, serialized bytes) on every op sequence of fixed depth over small capacities and "
+                "random contract-respecting programs; disjointness/completeness/merge order are also evaluated on the implementation alone.",
+        "note": NOTE + "; the multi-region layer (RegionTracker never hides free space, allocate retry loop, free_helper mark_free) is observed through the history harness snapshots (C06) and not yet a Lean theorem; 64-way summary levels of BtreeBitmap are modelled only through the serialized bytes",
+        "technique": "Lean 4 proof (inductive invariant of the buddy allocator) + differential correspondence incl. exhaustive small op sequences",
+        "design_ref": "DESIGN.md §6 C14",
+    },
     "C15": {
         "text": "Lean theorems over ALL key-type descriptors (nested arbitrarily) and all valid encodings: the comparator is a total preorder "
                 "respecting equality (pairs and triples), the separator of a<b is a valid encoding s with a<=s<b and len(s)<=len(a), branch "
